@@ -10,6 +10,9 @@
 -/
 import Gotree.Lemmas.C10Wit
 import Gotree.Lemmas.C10Log
+import Gotree.Lemmas.C10Cancel
+import Gotree.Model.C10Opts
+import Gotree.Gen.C10Facts
 import Gotree.Proofs.C05
 
 namespace Gotree.C10
@@ -557,6 +560,126 @@ theorem threads_nonpositive_fails :
     (fbpCfg 0 wRef [wBad]).isErr = true := by
   refine ⟨by decide, by decide, by decide, ?_, by decide, by decide⟩
   decide +kernel
+
+/-! ## the facts about the source the model assumes (regenerated on every run: harness/c10/extract.go) -/
+
+/-- The comparisons (operators and bounds) and the numeric literals of `FBP`, `MinTransferDist`, `minTransferDistRecur`,
+    `speciesToMoveRecursive`, `TBE`, `ReformatAvgDistance`, `NormalizeTransferDistancesByDepth`,
+    `UpdateTaxaMoveArrays`, what `classical` and `booster` call (readers, `ReinitIndexes` before `TBE`,
+    argument order, raw tree first), the defaults of the flags and `NIL_SUPPORT`, as extracted from the
+    working tree, are the ones the model was written against (Model/C10Table.lean `expected`). -/
+theorem sourceFactsCheck : Gen.C10.facts = expected := by decide
+
+/-! ## TBE with its output options (Model/C10Opts.lean; op C10.logx) -/
+
+/-- Since 833ceab the output options never change the outcome or the supports. -/
+theorem options_irrelevant (avg perBranch : Bool) (r : T) (bs : List T) :
+    tbeOpts avg perBranch r bs = tbe r bs := rfl
+
+/-- F96 (before 833ceab; found by the C10.logx cases of round 7): with `--per-branches` and without
+    `--moved-taxa` `TBE` panicked on every input of the property (tbe.go:281 indexed a slice that
+    tbe.go:176 had not allocated) — although the supports do not depend on these options at all. -/
+theorem per_branches_only_pinned_panics (r : T) (bs : List T) (h : hypOK r bs = true) :
+    tbeOptsPinned false true r bs = .panic := by
+  obtain ⟨hr, hne, hb⟩ := hypOK_facts h
+  have hrr : reinitOk r = true := by
+    simp only [treeOK, Bool.and_eq_true] at hr; exact hr.1
+  cases bs with
+  | nil => exact absurd rfl hne
+  | cons b rest =>
+    have hb' := hb b (List.mem_cons_self ..)
+    have ha := accepts_of_hyp hr hb'.1 hb'.2
+    simp [tbeOptsPinned, hrr, ha.1, ha.2]
+
+/-- … on a concrete witness, with the current model's answer for the same input. -/
+theorem per_branches_only_pinned_fails :
+    hypOK wRef [wBoot] = true ∧ (tbeOptsPinned false true wRef [wBoot]).isPanic = true ∧
+    (tbeOpts false true wRef [wBoot]).isPanic = false := by
+  decide
+
+/-- Every other combination of the options was already harmless. -/
+theorem other_options_pinned (avg perBranch : Bool) (h : (perBranch && !avg) = false) (r : T) (bs : List T) :
+    tbeOptsPinned avg perBranch r bs = tbe r bs := by
+  simp [tbeOptsPinned, h]
+
+/-! ## where the commands write (Model/C10Opts.lean; op C10.out) -/
+
+/-- Whatever is given to `-o` and `-r` (a file, `stdout`, `-`, nothing), the annotated reference is
+    written exactly once, the raw tree once iff `booster` was given `-r`, and never to two places. -/
+theorem outputs_written_once (tbeCmd : Bool) (outSel rawSel : String) :
+    let all := stdoutItems tbeCmd outSel rawSel ++ outFileItems outSel ++ rawFileItems tbeCmd rawSel
+    all.count "sup" = 1 ∧ all.count "raw" = (if tbeCmd && rawSel != "none" then 1 else 0) := by
+  simp only [stdoutItems, outFileItems, rawFileItems]
+  by_cases ho : toStdout outSel = true <;> by_cases hr : toStdout rawSel = true <;>
+    by_cases ht : tbeCmd = true <;> by_cases hn : (rawSel != "none") = true <;>
+    simp [ho, hr, ht, hn]
+
+/-- `booster` writes the raw tree before the annotated reference when both go to the standard output. -/
+theorem raw_tree_first (outSel rawSel : String) (ho : toStdout outSel = true) (hr : toStdout rawSel = true)
+    (hn : (rawSel != "none") = true) : stdoutItems true outSel rawSel = ["raw", "sup"] := by
+  simp [stdoutItems, ho, hr, hn]
+
+example : toStdout "-" = true ∧ toStdout "stdout" = true ∧ ("-" != "none") = true ∧ toStdout "file" = false := by decide
+
+/-! ## the Supporter: cancellation and progress (Model/C10Cancel.lean; op C10.cancel) -/
+
+/-- `if sup.Canceled() { break }` (fbp.go:57, tbe.go:208): a call cancelled as soon as `k` bootstrap
+    trees are finished returns what the call on the first `k` trees returns — the trees that come
+    later are never looked at (not even to refuse them), and what the counter of the Supporter held
+    before the call (`p0`) plays no part. -/
+theorem cancel_is_prefix (r : T) (bs : List T) (p0 k : Nat) :
+    (fbpS r bs p0 (p0 + k)).1 = fbp r (bs.take k) ∧ (tbeS r bs p0 (p0 + k)).1 = tbe r (bs.take k) :=
+  ⟨fbpS_fst r bs p0 k, tbeS_fst r bs p0 k⟩
+
+/-- A Supporter that is not cancelled before the last tree is finished changes nothing. -/
+theorem not_cancelled (r : T) (bs : List T) (p0 k : Nat) (h : bs.length ≤ k) :
+    (fbpS r bs p0 (p0 + k)).1 = fbp r bs ∧ (tbeS r bs p0 (p0 + k)).1 = tbe r bs := by
+  have := cancel_is_prefix r bs p0 k
+  rwa [List.take_of_length_le h] at this
+
+/-- The supports of a cancelled call are the definitions over the trees finished before the
+    cancellation (with `fbp_def`, `tbe_def`). -/
+theorem cancelled_supports_def (r : T) (bs : List T) (p0 k : Nat) (h : hypOK r (bs.take k) = true)
+    (hid : idsInRange r = true) :
+    (fbpS r bs p0 (p0 + k)).1 = .ok (r.splits.map (fbpOf r (bs.take k))) ∧
+    (tbeS r bs p0 (p0 + k)).1 = .ok (r.splits.map (tbeOf r (bs.take k))) := by
+  obtain ⟨h1, h2⟩ := cancel_is_prefix r bs p0 k
+  rw [h1, h2]
+  exact ⟨fbp_def r (bs.take k) h, tbe_def r (bs.take k) h hid⟩
+
+example : hypOK wRef ([wBoot, wBoot2, wBad].take 2) = true ∧ idsInRange wRef = true := by decide
+
+/-- `sup.IncrementProgress()` (fbp.go:92, tbe.go:297): after the call the counter has advanced by the
+    number of trees that were finished — those before the cancellation and before the first tree
+    that is refused. -/
+theorem progress_counts_finished_trees (r : T) (bs : List T) (p0 k : Nat) (hr : reinitOk r = true)
+    (hid : idsInRange r = true) :
+    (fbpS r bs p0 (p0 + k)).2 = p0 + min k (goodPrefix r bs) ∧
+    (tbeS r bs p0 (p0 + k)).2 = p0 + min k (goodPrefix r bs) :=
+  ⟨fbpS_snd r bs p0 k hr, tbeS_snd r bs p0 k hr (fun b => idPanic_false r b hid)⟩
+
+/-- … on the property's inputs: by the number of trees, or `k`. -/
+theorem progress_accepted (r : T) (bs : List T) (p0 k : Nat) (h : hypOK r bs = true)
+    (hid : idsInRange r = true) :
+    (fbpS r bs p0 (p0 + k)).2 = p0 + min k bs.length ∧ (tbeS r bs p0 (p0 + k)).2 = p0 + min k bs.length := by
+  obtain ⟨hr, _, hb⟩ := hypOK_facts h
+  have hrr : reinitOk r = true := by
+    simp only [treeOK, Bool.and_eq_true] at hr; exact hr.1
+  have hg : ∀ (l : List T), (∀ b ∈ l, treeOK b = true ∧ sameTaxa r b = true) → goodPrefix r l = l.length := by
+    intro l
+    induction l with
+    | nil => intro _; rfl
+    | cons b l ih =>
+      intro hl
+      have hb' := hl b (List.mem_cons_self ..)
+      have ha := accepts_of_hyp hr hb'.1 hb'.2
+      simp only [goodPrefix, ha.1, ha.2, Bool.and_self, if_true, List.length_cons]
+      rw [ih (fun x hx => hl x (List.mem_cons_of_mem _ hx))]
+  have := progress_counts_finished_trees r bs p0 k hrr hid
+  rwa [hg bs hb] at this
+
+example : hypOK wRef [wBoot, wBoot2] = true ∧ idsInRange wRef = true ∧ reinitOk wRef = true ∧
+    goodPrefix wRef [wBoot, wBad, wBoot2] = 1 := by decide
 
 /-! ## the repaired defects: the old behaviour, on concrete witnesses -/
 
